@@ -332,6 +332,10 @@ func buildSubGroupsWithSegmentation(
 		}
 	}
 	if !setPodSubgroupReference {
+		if podSegment < 0 || podSegment >= len(subGroups) {
+			return nil, fmt.Errorf("pod %s/%s belongs to segment %d, outside of the %d segments of a group of size %d",
+				pod.Namespace, pod.Name, podSegment, len(subGroups), replicasSize)
+		}
 		subGroups[podSegment].PodsReferences = append(subGroups[podSegment].PodsReferences, pod.Name)
 	}
 
